@@ -371,6 +371,7 @@ func (b *sourcePathsBuilder) remapDescriptor(
 			return nil, false, err
 		}
 		isDirty = isDirty || changed
+		oldOneofs := slices.Clone(descriptor.OneofDecl) // remapSlice compacts in place when mutating
 		newOneofs, changed, err := remapSlice(sourcePathsRemap, append(sourcePath, messageOneofsTag), descriptor.OneofDecl, b.remapOneof, b.options)
 		if err != nil {
 			return nil, false, err
@@ -378,6 +379,28 @@ func (b *sourcePathsBuilder) remapDescriptor(
 		isDirty = isDirty || changed
 		if isDirty {
 			newDescriptor = maybeClone(descriptor, b.options)
+			if len(newOneofs) != len(oldOneofs) {
+				// Oneofs were dropped: renumber the oneof_index of the remaining fields.
+				newIndexes := make(map[*descriptorpb.OneofDescriptorProto]int32, len(newOneofs))
+				for index, oneof := range newOneofs {
+					newIndexes[oneof] = int32(index)
+				}
+				renumbered := make([]*descriptorpb.FieldDescriptorProto, len(newFields))
+				for i, field := range newFields {
+					renumbered[i] = field
+					if field.OneofIndex == nil {
+						continue
+					}
+					newIndex, ok := newIndexes[oldOneofs[field.GetOneofIndex()]]
+					if !ok || newIndex == field.GetOneofIndex() {
+						continue
+					}
+					field = maybeClone(field, b.options)
+					field.OneofIndex = proto.Int32(newIndex)
+					renumbered[i] = field
+				}
+				newFields = renumbered
+			}
 			newDescriptor.Field = newFields
 			newDescriptor.OneofDecl = newOneofs
 		}
